@@ -175,29 +175,46 @@ inductive GrouperSpec where
   | default | fileName | tag (t : String) | readId (d : String) | tableFile
   deriving DecidableEq, Repr
 
-/-- `option.split(':')` dispatch; `none` option = no `--read_group` -/
-def parseReadGroup (opt : Option String) : Except Err GrouperSpec :=
-  match opt with
-  | none => .ok .default
-  | some o =>
-    match pySplit [':'] o.toList with
-    | .error e => .error e
-    | .ok values =>
-      let vs := values.map String.ofList
-      match vs with
-      | [] => .error .indexError
-      | v0 :: rest =>
-        if v0 = "file_name" then .ok .fileName
-        else if v0 = "tag" then
-          match rest with
-          | [] => .ok (.tag rg_default_tag)
-          | t :: _ => .ok (.tag t)
-        else if v0 = "read_id" then
+/-- `"read_id:"` — the prefix that `option[len('read_id:'):]` removes -/
+def kwReadIdColon : List Char := ['r', 'e', 'a', 'd', '_', 'i', 'd', ':']
+
+/-- `option.split(':')` dispatch on text (`List Char`).  `orig = false`: the repaired tree (candidate patch
+    `fix_read_id_colon_delimiter`, audit-2 B GAP C09-4): the delimiter of `read_id:DELIM` is EVERYTHING after the first
+    colon (`option[len('read_id:'):]`), so it may be or contain a colon; a bare `read_id` gives the empty delimiter.
+    `orig = true`: the pinned tree, `values[1]` (`read_id::` gave the empty delimiter, a bare `read_id` an IndexError) -/
+def parseReadGroupL (orig : Bool) (o : List Char) : Except Err GrouperSpec :=
+  match pySplit [':'] o with
+  | .error e => .error e
+  | .ok values =>
+    let vs := values.map String.ofList
+    match vs with
+    | [] => .error .indexError
+    | v0 :: rest =>
+      if v0 = "file_name" then .ok .fileName
+      else if v0 = "tag" then
+        match rest with
+        | [] => .ok (.tag rg_default_tag)
+        | t :: _ => .ok (.tag t)
+      else if v0 = "read_id" then
+        if orig then
           match rest with
           | [] => .error .indexError
           | d :: _ => .ok (.readId d)
-        else if v0 = "file" then .ok .tableFile
-        else .ok .default
+        else .ok (.readId (String.ofList (o.drop kwReadIdColon.length)))
+      else if v0 = "file" then .ok .tableFile
+      else .ok .default
+
+/-- `create_read_grouper` option dispatch; `none` option = no `--read_group` -/
+def parseReadGroup (opt : Option String) : Except Err GrouperSpec :=
+  match opt with
+  | none => .ok .default
+  | some o => parseReadGroupL false o.toList
+
+/-- the pinned tree -/
+def parseReadGroupOrig (opt : Option String) : Except Err GrouperSpec :=
+  match opt with
+  | none => .ok .default
+  | some o => parseReadGroupL true o.toList
 
 /-! ### `load_table` and `split_read_group_table` -/
 
